@@ -391,6 +391,7 @@ def run(tier, seed):
 
 
 def replay(path, seed):
+    path = os.path.abspath(path)
     if path.endswith(".tlc.out"):
         print(open(path).read()[-4000:])
         return 1
